@@ -95,8 +95,8 @@ def run(ctx):
     owners = set(o for o, b, bi in call_sites(prog, STREAMER + 'on_job_completed') if not is_test_util(o))
     ctx.ob('R13.2', 'on_job_completed|emitter', owners == {CT}, f'on_job_completed emitted only by check_termination (observed {sorted(owners)})', None)
     ctc = set(o for o, b, bi in call_sites(prog, CT) if not is_test_util(o))
-    exp = {JOB + x for x in ('set_finished_state', 'set_failed_state', 'set_cancel_state', 'abort_tasks')} | {HQ + 'client::handle_job_close'}
-    ctx.ob('R13.2', 'check_termination|callers', ctc == exp, f'check_termination is called from the four terminal setters and handle_job_close (observed {sorted(x.split("::")[-1] for x in ctc)})', None)
+    exp = {JOB + x for x in ('set_finished_state', 'set_failed_state', 'set_cancel_state', 'abort_tasks')} | {HQ + 'client::handle_job_close', SUBMIT + 'handle_submit'}
+    ctx.ob('R13.2', 'check_termination|callers', ctc == exp, f'check_termination is called from the four terminal setters, handle_job_close and handle_submit (new job) (observed {sorted(x.split("::")[-1] for x in ctc)})', None)
     # handle_job_close: close first (so that the check sees a closed job and reports JobCompleted), and only for a job that was open
     hjc = [prog.bodies[p_] for p_ in prog.with_closures(HQ + 'client::handle_job_close')]
     for b_ in hjc:
@@ -274,6 +274,22 @@ def run(ctx):
     fo, ab_, ca = tests['n_failed_tasks'][0], tests['n_aborted_tasks'][0], tests['n_canceled_tasks'][0]
     ctx.ob('R13.8', 'job_status|failed before aborted before canceled', jb.dominates(fo, ab_) and jb.dominates(ab_, ca) and fo != ab_ != ca,
            'the n_failed_tasks test dominates the n_aborted_tasks test, which dominates the n_canceled_tasks test', jb.loc(ca))
+
+    # ---- R13.9 a job that is created terminated is reported completed
+    ctx.rule('R13.9', 'handle_submit runs check_termination for a NEW job after its tasks were attached (a closed job created without any task gets no task event that would ever trigger the check), and only for a new job (an open job must not be announced idle/completed by a submit)')
+    hs9 = prog.body(SUBMIT + 'handle_submit')
+    ct9 = hs9.call_blocks(CT)
+    sj9 = hs9.call_blocks(SUBMIT + 'submit_job_desc')
+    ctx.ob('R13.9', 'handle_submit|new job checked for termination', bool(ct9) and bool(sj9) and all(c not in hs9.reach_from([0], avoid=sj9) for c in ct9), 'check_termination is called after submit_job_desc', hs9.loc(ct9[0]) if ct9 else hs9.loc())
+    if ct9:
+        # guarded by the new_job flag: a bool local that is true exactly on the path that issued a new job id
+        nj = hs9.call_blocks(HQ + 'state::State::new_job_id')
+        guarded = False
+        for bi in hs9.reachable():
+            si = hs9.switch_info(bi)
+            if si and si.get('kind') == 'bool' and hs9.dominates(bi, ct9[0]) and ct9[0] in hs9.reach_from([si['true_succ']]) and ct9[0] not in hs9.reach_from([si['false_succ']], avoid=[bi]):
+                guarded = True
+        ctx.ob('R13.9', 'handle_submit|only for a new job', guarded and bool(nj), 'the check is guarded by the new-job flag', hs9.loc(ct9[0]))
 
 
 def _only_without_entries(b, x, cmps):
